@@ -3,6 +3,7 @@
 
 mod api;
 mod c11;
+mod c12;
 mod c15;
 mod common;
 mod gen;
@@ -27,6 +28,7 @@ fn real_main() -> i32 {
     let env = Env::from_env_and_args(&args[1..]);
     match args[0].as_str() {
         "c11" => c11::main(&env),
+        "c12" => c12::main(&env),
         "c15" => c15::main(&env),
         "replay" => {
             let Some(path) = args.get(1) else { return usage() };
@@ -41,6 +43,7 @@ fn real_main() -> i32 {
             match (doc["property"].as_str(), doc["engine"].as_str()) {
                 (Some("C15"), _) => c15::replay(&doc),
                 (Some("C11"), _) => c11::replay(&doc),
+                (Some("C12"), Some("disk")) => c12::replay(&doc),
                 _ => {
                     eprintln!("unknown property/engine in replay file");
                     2
